@@ -430,10 +430,12 @@ type C09Storm struct {
 	Ser        bool   `json:"ser"`
 	ErrKind    string `json:"err_kind,omitempty"`
 	Stats      bool   `json:"stats,omitempty"`
+	// InFlight: this many unary calls are already in flight on the connection (started, unanswered) when the storm begins
+	InFlight int `json:"in_flight,omitempty"`
 }
 
 func genC09Storm(t *rapid.T) C09Storm {
-	return C09Storm{Callers: rapid.SampledFrom([]int{8, 16, 32, 64}).Draw(t, "callers"), Streams: rapid.Bool().Draw(t, "streams"), WriteFails: rapid.IntRange(0, 3).Draw(t, "wf") == 0, Ser: rapid.Bool().Draw(t, "ser"), ErrKind: rapid.SampledFrom(kit.FaultErrKinds).Draw(t, "err_kind"), Stats: rapid.IntRange(0, 2).Draw(t, "stats") == 0}
+	return C09Storm{Callers: rapid.SampledFrom([]int{8, 16, 32, 64}).Draw(t, "callers"), Streams: rapid.Bool().Draw(t, "streams"), WriteFails: rapid.IntRange(0, 3).Draw(t, "wf") == 0, Ser: rapid.Bool().Draw(t, "ser"), ErrKind: rapid.SampledFrom(kit.FaultErrKinds).Draw(t, "err_kind"), Stats: rapid.IntRange(0, 2).Draw(t, "stats") == 0, InFlight: rapid.SampledFrom([]int{0, 0, 0, 0, 40, 300, 600}).Draw(t, "in_flight")}
 }
 
 func execC09Storm(t *testing.T, c C09Storm) (v Verdict) {
@@ -449,6 +451,19 @@ func execC09Storm(t *testing.T, c C09Storm) (v Verdict) {
 		}
 		cc := goat.NewClientConn(l.A, "c0", kit.ServerName, dopts...)
 		bg := context.Background()
+		for i := 0; i < c.InFlight; i++ {
+			i := i
+			go func() {
+				_, err := kit.Invoke(bg, cc, "early", []byte{byte(i)})
+				mu.Lock()
+				returned++
+				if err == nil {
+					succeeded++
+				}
+				mu.Unlock()
+			}()
+		}
+		kit.Settle()
 		start := make(chan struct{})
 		for i := 0; i < c.Callers; i++ {
 			i := i
@@ -485,8 +500,8 @@ func execC09Storm(t *testing.T, c C09Storm) (v Verdict) {
 		mu.Lock()
 		r := returned
 		mu.Unlock()
-		if r != c.Callers {
-			v.failf("%d of %d calls started while the transport's read failed are still waiting for a response that can never arrive (nobody answers on this connection; write side writable=%v)", c.Callers-r, c.Callers, !c.WriteFails)
+		if r != c.Callers+c.InFlight {
+			v.failf("%d of %d calls in flight when, or started while, the transport's read failed are still waiting for a response that can never arrive (%d were in flight before; nobody answers on this connection; write side writable=%v)", c.Callers+c.InFlight-r, c.Callers+c.InFlight, c.InFlight, !c.WriteFails)
 		}
 		l.Close()
 		cc.Close()
@@ -498,7 +513,7 @@ func execC09Storm(t *testing.T, c C09Storm) (v Verdict) {
 	if succeeded > 0 {
 		v.failf("%d calls succeeded although no response was ever sent", succeeded)
 	}
-	v.Info = kit.CaseInfo{Labels: []string{"storm", fmt.Sprintf("storm.callers=%d", c.Callers)}, NonTrivial: true, Key: fmt.Sprintf("%+v", c), Sample: c}
+	v.Info = kit.CaseInfo{Labels: []string{"storm", fmt.Sprintf("storm.callers=%d", c.Callers), fmt.Sprintf("storm.many_in_flight=%v", c.InFlight >= 300)}, NonTrivial: true, Key: fmt.Sprintf("%+v", c), Sample: c}
 	return
 }
 
